@@ -11,15 +11,15 @@ import (
 )
 
 const (
-	scInvokeWaitingResponse = iota // unary Invoke blocked in its receive
-	scInvokeParkedInWrite          // unary Invoke parked in the transport write
-	scRecvBlocked                  // stream: MsgRecv blocked
-	scSendParked                   // stream: MsgSend parked in the transport
-	scSendParkedCloseBehind        // stream: MsgSend parked, Close() waiting behind it
-	scSendParkedCloseSendBehind    // stream: MsgSend parked, CloseSend() waiting behind it
-	scSendParkedRecvBlocked        // stream: MsgSend parked and MsgRecv blocked
-	scIdleThenOps                  // nothing in flight at cancel time; operations issued afterwards
-	scRecvBlockedWritesStall       // stream: MsgRecv blocked; from the cancel on the transport accepts no writes
+	scInvokeWaitingResponse     = iota // unary Invoke blocked in its receive
+	scInvokeParkedInWrite              // unary Invoke parked in the transport write
+	scRecvBlocked                      // stream: MsgRecv blocked
+	scSendParked                       // stream: MsgSend parked in the transport
+	scSendParkedCloseBehind            // stream: MsgSend parked, Close() waiting behind it
+	scSendParkedCloseSendBehind        // stream: MsgSend parked, CloseSend() waiting behind it
+	scSendParkedRecvBlocked            // stream: MsgSend parked and MsgRecv blocked
+	scIdleThenOps                      // nothing in flight at cancel time; operations issued afterwards
+	scRecvBlockedWritesStall           // stream: MsgRecv blocked; from the cancel on the transport accepts no writes
 	numScen
 )
 
